@@ -550,6 +550,9 @@ def r612(ctx):
         raise AnalysisError("R-6.12: no iteration over a per-run dictionary found in write_toml / write_to_pathens")
 
 
+ASE_REL = "infretis/classes/engines/ase_engine.py"
+
+
 def run(ctx):
     ctx.rule("R-6.6", "in-flight jobs are persisted and re-issued in one ensemble-index unit (offset symmetry of current.locked; shared with C08 R-8.7)", floor=4)
     ctx.rule("R-6.1", "restart.toml writer/reader agreement: keys, roles, key representation", floor=12)
@@ -584,6 +587,9 @@ def run(ctx):
     _methods = {s.name: s for s in _cls.body if isinstance(s, FUNC)}
     ctx.attempt(_c03.r38, RuleProxy(ctx, "R-6.11", " (jobs re-issued after a restart are never cleared from current.locked, so the next restart re-issues stale jobs)"), _methods)
     ctx.attempt(c14.r142, RuleProxy(ctx, "R-6.10", " (a path read back at a restart differs from the path the interrupted run held in memory)"))
+    ctx.rule("R-6.15", "every in-process random draw of a move comes from the job's streams that restart.toml persists (shared with C07 R-7.4): a draw from the process-global generator is not reproduced by a restart", floor=10)
+    from . import c07 as _c07
+    ctx.attempt(_c07.r74, RuleProxy(ctx, "R-6.15", " (restart equivalence: the restart file persists the scheduler stream only; a draw from any other generator differs between the run and its restart)"))
     from .shared import config_section_agreement, callsite_config_agreement, restart_preserves_settings
     ctx.attempt(restart_preserves_settings, ctx, "R-6.9", " (restart equivalence)")
     ctx.attempt(callsite_config_agreement, ctx, "R-6.8", "calc_cv_vector", ["interfaces", "moves", "lambda_minus_one", "cap"], " (restart equivalence: a path loaded from disk is weighted like the same path when it was accepted)")
@@ -591,6 +597,7 @@ def run(ctx):
 
 
 VARIANTS = [
+    B("c06-ase-integrator-loses-job-stream", ASE_REL, "dyn = self.Integrator(atoms, **integrator_settings)", "dyn = self.Integrator(atoms, **self.integrator_settings)", "R-6.15", control=True, why="seeded C06_i"),
     B("c06-commit-only-when-printing", REPEX, "            self.print_shooted(md_items, pn_news)\n        # save for possible restart\n        self.write_toml()", "            self.print_shooted(md_items, pn_news)\n            # save for possible restart\n            self.write_toml()", "R-6.14", control=True, why="seeded C06_g"),
     B("c06-restarted-paths-treated-differently", TIS, '    if path.get_move() == "ld" or ens_set["tis_set"].get(', '    if path.get_move() in ("ld", "re") or ens_set["tis_set"].get(', "R-6.13", control=True, why="seeded C09_g"),
     B("c06-frac-table-in-insertion-order", REPEX, "        for key in sorted(self.traj_data.keys()):\n            fracs = [str(i) for i in self.traj_data[key][\"frac\"]]", "        for key, data in self.traj_data.items():\n            fracs = [str(i) for i in data[\"frac\"]]", "R-6.12", control=True, why="seeded C06_f"),
